@@ -232,7 +232,7 @@ def call_numpy(it, name, mod, fn, args, kwargs, node, fr):
             cols = []
             ok = True
             for p in parts:
-                if isinstance(p, Val):
+                if isinstance(p, (Val, Unk)) and as_arr(p) is None:
                     cols.append(p.term)
                 else:
                     a = as_arr(p)
@@ -1181,7 +1181,7 @@ def rot_method(it, r, name, args, kwargs, node):
         u.rot = r
         return u
     if name == "as_quat":
-        q = T("quat", r.term)
+        q = T("quat", r.term, const(_flag(kwargs, "canonical", False) is True), const(_flag(kwargs, "scalar_first", False) is True))
         out = Arr([T("item", q, i) for i in range(4)], 2, r.space)
         out.as_quat = r
         out.quat_kwargs = kwargs
